@@ -204,7 +204,7 @@ class ExpandP(Profile):
     def weights(self, cfg, rng):
         return {"eml_seed": 10, "expand": 14, "set_content": 4, "add_attr": 2, "rm_attr": 1, "add_child": 2,
                 "new": 2, "remove_child": 2, "shift": 1, "add_ns": 1, "attr_item": 1, "copy": 0.5,
-                "ro": 1, "restart": 0.3, "delete": 0.3, "json_twin": 1.5}
+                "ro": 1, "restart": 0.3, "delete": 0.3, "json_twin": 1.5, "import_xml": 0.8}
 
     def tune(self, cfg, rng):
         cfg["seed_mode"] = "refs"
